@@ -60,9 +60,14 @@ const (
 	// close-notify / go-away with a write deadline, and a goroutine waiting for a sync.Mutex is not
 	// "durably blocked" for synctest, so virtual time could never reach that deadline.
 	FaultStall
+	// FaultReadErrOnce / FaultWriteErrOnce: exactly one Read resp. Write (the k-th call if it is of that
+	// kind, else the next one of that kind) fails with a connection-reset / broken-pipe error; the link
+	// itself stays intact (a transient error). Not part of the statement's menu; thorough tier only.
+	FaultReadErrOnce
+	FaultWriteErrOnce
 )
 
-var faultNames = []string{"none", "read-error", "write-error", "eof", "peer-close", "stall"}
+var faultNames = []string{"none", "read-error", "write-error", "eof", "peer-close", "stall", "read-error-once", "write-error-once"}
 
 func (f Fault) String() string {
 	if int(f) < len(faultNames) {
@@ -73,6 +78,19 @@ func (f Fault) String() string {
 
 // IOFaults is the fault menu of the property statements, in a fixed order.
 var IOFaults = []Fault{FaultReadErr, FaultWriteErr, FaultEOF, FaultPeerClose, FaultStall}
+
+// TransientIOFaults are the one-shot errors (extra depth, not in the statement's menu).
+var TransientIOFaults = []Fault{FaultReadErrOnce, FaultWriteErrOnce}
+
+// FaultByName finds a fault by its String() form.
+func FaultByName(name string) (Fault, bool) {
+	for i, n := range faultNames {
+		if n == name && i > 0 {
+			return Fault(i), true
+		}
+	}
+	return FaultNone, false
+}
 
 // Op describes one intercepted I/O call.
 type Op struct {
@@ -134,6 +152,8 @@ type Conn struct {
 	severed    bool // FaultPeerClose hit the link
 	rdErr      error
 	wrErr      error
+	rdErrOnce  bool
+	wrErrOnce  bool
 	eof        bool
 	stalled    bool
 	rdl, wdl   deadline
@@ -299,6 +319,10 @@ func (c *Conn) apply(f Fault, k int) {
 		c.severed, c.peer.severed = true, true
 	case FaultStall:
 		c.stalled = true
+	case FaultReadErrOnce:
+		c.rdErrOnce = true
+	case FaultWriteErrOnce:
+		c.wrErrOnce = true
 	}
 	c.fired = append(c.fired, fmt.Sprintf("%s@%d", f, k))
 	c.s.cond.Broadcast()
@@ -356,6 +380,12 @@ func (c *Conn) Read(b []byte) (int, error) {
 			c.end(k, 0, err)
 			return 0, err
 		}
+		if c.rdErrOnce {
+			c.rdErrOnce = false
+			err := &net.OpError{Op: "read", Net: "tcp", Source: c.lna, Addr: c.rna, Err: injected{syscall.ECONNRESET}}
+			c.end(k, 0, err)
+			return 0, err
+		}
 		if !c.stalled {
 			if c.eof {
 				c.end(k, 0, io.EOF)
@@ -400,6 +430,12 @@ func (c *Conn) Write(b []byte) (int, error) {
 		}
 		if c.wrErr != nil {
 			err := c.wrErr
+			c.end(k, done, err)
+			return done, err
+		}
+		if c.wrErrOnce {
+			c.wrErrOnce = false
+			err := &net.OpError{Op: "write", Net: "tcp", Source: c.lna, Addr: c.rna, Err: injected{syscall.EPIPE}}
 			c.end(k, done, err)
 			return done, err
 		}
